@@ -20,6 +20,7 @@ func main() {
 	flag.BoolVar(&o.Verbose, "v", false, "verbose")
 	flag.BoolVar(&o.SelfTest, "selftest", false, "run the engine self-test")
 	flag.BoolVar(&o.NoReplay, "noreplay", false, "do not replay counterexamples natively (debugging)")
+	flag.BoolVar(&o.Summary, "summary", false, "one line per violation (debugging)")
 	flag.IntVar(&o.MaxPaths, "maxpaths", 0, "stop after this many paths (debugging)")
 	flag.Parse()
 	code, err := run.Main(&o)
